@@ -625,5 +625,51 @@ func c11ForgedCheckpoints(u0 *univ.Universe, tips0 map[string]int) []c11scn {
 		r.settle(-1, 20*time.Second)
 		return r.judge("forged-checkpoint foreign-state", -1, true, "")
 	}})
+	out = append(out, c11scn{"forged-checkpoint invented-state (block 100 of 101 commits to its parent state with the difficulty set to zero)", func() (string, string) {
+		u, tips := c11Universe()
+		k := tips["T9"]
+		var invented consensus.State
+		for i := 1; i <= 101; i++ {
+			if i == 100 {
+				// the peer invents a state - the true parent state with Difficulty = 0 - and commits its block to it
+				p := u.Nodes[k]
+				invented = p.L.State
+				invented.Difficulty = consensus.Work{}
+				b := univ.BuildBlock(p.L, univ.TS(u.Net, p.Height+1, 0), u.As[3].Addr, nil, nil)
+				b.V2.Commitment = invented.Commitment(b.MinerPayouts[0].Address, b.Transactions, b.V2Transactions())
+				univ.Mine(p.HS, &b)
+				k = u.AddRaw(k, b, "X100")
+				continue
+			}
+			if i < 100 {
+				k = u.Add(k, 0, nil, nil, fmt.Sprintf("X%d", i))
+			} else {
+				k = u.AddHeaderOnly(k, 0, fmt.Sprintf("X%d", i))
+			}
+		}
+		if !u.Nodes[k].HeaderOK {
+			return "harness:forged-chain", "the 101-block header chain is not header-valid: " + u.Nodes[k].Err
+		}
+		x100 := u.Nodes[u.Nodes[k].Parent]
+		mut := &mutation{Name: "ck-invented-state", RPC: "SendCheckpoint", Nth: -1, Apply: func(b *byz, o gateway.Object) string {
+			r := o.(*gateway.RPCSendCheckpoint)
+			if r.Block.ID() == x100.Block.ID() {
+				r.State = invented
+			}
+			return ""
+		}}
+		r, err := newC11Rig(u, tips["T9"], -1, k, mut, "B")
+		if err != nil {
+			return "harness:setup", err.Error()
+		}
+		defer r.close()
+		b2 := newByz(u, k, mut)
+		if err := b2.dial(r.c.mn, "10.67.0.1", r.v.addr); err != nil {
+			return "harness:setup", err.Error()
+		}
+		defer b2.close()
+		r.settle(-1, 20*time.Second)
+		return r.judge("forged-checkpoint invented-state", -1, true, "")
+	}})
 	return out
 }
